@@ -44,9 +44,10 @@ def cyc_canon(pts) -> tuple:
     n = len(pts)
     cands = []
     for seq in (pts, pts[::-1]):
-        k = min(range(n), key=lambda i: seq[i])
-        cands.append(tuple(seq[k:] + seq[:k]))
-    return min(cands)
+        # every rotation: a ring may hold the same point twice (degenerate corners next to a hole)
+        for k in range(n):
+            cands.append(tuple(seq[k:] + seq[:k]))
+    return min(cands) if cands else ()
 
 
 def idx_json(v) -> str:
@@ -127,9 +128,10 @@ def examine(ctx, recipe, items) -> None:
                 ctx.oracle_fail(f'{fmt}-members-differ', {**desc, 'format': fmt},
                                 f'{len(members)} members read back, {len(expected)} cells have polygons, or coordinates differ')
         # ---- the command line writes the same files -------------------------------------------------
-        if ctx.rng.random() < 0.3:
+        if ctx.rng.random() < 0.4:
             src = os.path.join(wd, 'in.nc')
-            ds.to_netcdf(src)
+            # (coordinates packed / numerically filled in the file: what the command reads must be the decoded values)
+            G.pack_coordinates(ds).to_netcdf(src)
             p2 = os.path.join(wd, 'cli.geojson')
             try:
                 cli_main(['export-geometry', src, p2])
@@ -179,7 +181,17 @@ def make_recipe(ctx, k):
     kw = {'max_w': 3, 'max_h': 2, 'coords_as': 'vars'} if conv == 'ugrid' else {'max_n': 4}
     if conv in ('cf2d', 'shoc_simple'):
         kw['twist'] = True
-    return G.random_recipe(rng, conv, ctx.tier, **kw)
+    recipe = G.random_recipe(rng, conv, ctx.tier, **kw)
+    # dimension names that coincide with the property names of the exported features
+    if rng.random() < 0.3:
+        a, b = rng.choice([('index', 'column'), ('linear_index', 'index'), ('row', 'linear_index')])
+        if conv == 'ugrid':
+            recipe['names'] = {'face_dim': a}
+        elif conv in ('cf1d', 'cf2d'):
+            if conv == 'cf1d':
+                recipe.update(latname='latitude', lonname='longitude')
+            recipe.update(ydim=a, xdim=b)
+    return recipe
 
 
 def run(ctx) -> None:
